@@ -240,7 +240,9 @@ def case_cohort(run, i):
         # through the sub-command: file lists, -y, -x, -f and the --no-* switches must reach do_reference, and the file written is its result
         from ..monitors import cli_plumb
         out = os.path.join(d, "ref.cnn")
-        argv = ["reference"] + tfiles + afiles + ["-o", out] + (["-y"] if male_ref else []) + (["-x", cli_plumb.sex_arg(sex_all, i)] if given else []) \
+        # every other time the cohort is named by its directory (the sub-command then collects *targetcoverage.cnn itself)
+        by_dir = (i // 5) % 2 == 1 and anti_mode != "none"
+        argv = ["reference"] + ([d] if by_dir else tfiles + afiles) + ["-o", out] + (["-y"] if male_ref else []) + (["-x", cli_plumb.sex_arg(sex_all, i)] if given else []) \
             + (["-f", fa] if fa else []) + ([] if opts["do_gc"] else ["--no-gc"]) + ([] if opts["do_edge"] else ["--no-edge"]) + ([] if opts["do_rmask"] else ["--no-rmask"])
         r = cli_plumb.check_cli(run, rt, R, "do_reference", argv,
                                 dict(fa_fname=fa, is_haploid_x_reference=male_ref, female_samples=(sex_all if given else None), do_gc=opts["do_gc"], do_edge=opts["do_edge"],
